@@ -45,6 +45,8 @@ def main():
            expect_violation="Determinacy")
     ck.tlc("CallHistory", "CallHistory_nef.cfg", count=False,
            expect_violation="Determinacy")
+    ck.tlc("CallHistory", "CallHistory_onerror.cfg", count=False,
+           expect_violation="Determinacy")
 
     def quiet(fn, *a, **kw):
         with contextlib.redirect_stdout(io.StringIO()):
@@ -182,6 +184,18 @@ def main():
                     d = numpy.array(RT.data)
                     out.append(d if d.ndim == 4 else d[-1])
                 return numpy.array(out)
+            if name == "rdm_propagate_raises":
+                # a propagation with a refinement that raises after the
+                # refinement was applied; the caller catches the exception
+                for p in (self.prop, self.propG, self.propL, self.propH):
+                    try:
+                        quiet(p.propagate, self.rho0, Nref=arg,
+                              method="no-such-method")
+                    except Exception:
+                        pass
+                    else:
+                        raise MachineryFailure("unknown method accepted")
+                return None
             if name in ("nef_propagate", "nef_eso_calculate"):
                 self.nef()
             if name == "nef_propagate":
@@ -244,6 +258,9 @@ def main():
          ("pop_propagate", None), ("rdm_propagate", 1)],
         [("set_refinement", 2), ("rdm_propagate", 1), ("build_tensor", True),
          ("rdm_propagate", 1)],
+        [("rdm_propagate", 1), ("rdm_propagate_raises", 4),
+         ("rdm_propagate", 1), ("set_refinement", 2),
+         ("rdm_propagate_raises", 4), ("rdm_propagate", 1)],
         [("nef_propagate", 1), ("nef_propagate", 2), ("nef_propagate", 1),
          ("nef_eso_calculate", None)],
         [("nef_propagate", 2), ("nef_eso_calculate", None),
@@ -264,6 +281,8 @@ def main():
                 seq.append(("heom_propagate", None))
             elif act == "NefPropagate":
                 seq.append(("nef_propagate", a[0]))
+            elif act == "RDMPropagateRaises":
+                seq.append(("rdm_propagate_raises", a[0]))
             elif act == "Stateless":
                 seq.append((a[0], None))
         if seq:
